@@ -185,22 +185,30 @@ func c15SlowSession(c *core.Collector, tcpAddr string, d consts.ActiveSafetyType
 			}
 		}
 		c.Eval()
-		cli.Write(frame(0x1210, att.Body1210(d, []byte("T5"), []byte("slow"), []att.File{f})))
+		write := func(b []byte) error { // every write of the terminal is bounded: a server that has left the session must not hang the check
+			cli.SetWriteDeadline(time.Now().Add(20 * time.Second))
+			_, err := cli.Write(b)
+			return err
+		}
+		write(frame(0x1210, att.Body1210(d, []byte("T5"), []byte("slow"), []att.File{f})))
 		if !expectReply("0x1210", 0x8001) {
 			return
 		}
-		cli.Write(frame(0x1211, att.Body1211(f, 0)))
+		write(frame(0x1211, att.Body1211(f, 0)))
 		if !expectReply("0x1211", 0x8001) {
 			return
 		}
 		for k := 0; k < n; k++ {
 			time.Sleep(1100 * time.Millisecond)
-			if _, err := cli.Write(append(att.ChunkHeader(d, f.Name, uint32(k*100), 100), content[k*100:(k+1)*100]...)); err != nil {
+			if err := write(append(att.ChunkHeader(d, f.Name, uint32(k*100), 100), content[k*100:(k+1)*100]...)); err != nil {
 				c.Violate("abort|session aborted by valid input (server stopped reading)|slow session", fmt.Sprintf("chunk %d of %d over %s: %v", k, n, where, err), wit)
 				return
 			}
 		}
-		cli.Write(frame(0x1212, att.Body1211(f, 0)))
+		if err := write(frame(0x1212, att.Body1211(f, 0))); err != nil {
+			c.Violate("abort|session aborted by valid input (server stopped reading)|slow session", fmt.Sprintf("0x1212 over %s: %v", where, err), wit)
+			return
+		}
 		select {
 		case fr, ok := <-replies:
 			want := append(append([]byte{byte(len(f.Name))}, f.Name...), 0, 0, 0)
